@@ -456,12 +456,19 @@ Definition reduce (k : red_kind) (keepdims : bool) (x : tensor) (axes : list nat
   | None => None
   end.
 
-(* axes = None or [] : all axes, unless noop_with_empty_axes *)
+(* reductions of a single element that are the identity *)
+Definition red_idempotent (k : red_kind) : bool :=
+  match k with RSum | RProd | RMax | RMin => true | RSumSquare | RL1 => false end.
+
+(* axes = None or [] : all axes, unless noop_with_empty_axes.  With noop the text says "the output
+   tensor would be equivalent to input tensor" while the reference implementation reduces over an
+   empty set of axes (SumSquare squares, L1 takes absolute values): where the two differ the
+   reference is left undefined. *)
 Definition reduce_op (k : red_kind) (keepdims noop : bool) (x : tensor) (axes : option (list Z)) : option tensor :=
   let r := length (shape x) in
   let ax := match axes with Some a => a | None => [] end in
   match ax with
-  | [] => if noop then Some x else reduce k keepdims x (seq 0 r)
+  | [] => if noop then (if red_idempotent k then Some x else None) else reduce k keepdims x (seq 0 r)
   | _ => match norm_axes r ax with
          | Some ks => if nodupb ks then reduce k keepdims x ks else None
          | None => None
@@ -672,3 +679,27 @@ Definition scatter_nd (red : scatter_red) (x ind upd_ : tensor) : option tensor 
         (map (fun t => get upd_ (fst t ++ skipn m p))
              (filter (fun t => list_eqb Nat.eqb (snd t) (firstn m p)) tgts)))
   else None.
+
+(* ------------------------------------------------------------------ MaxPool (2-D, NCHW) *)
+(* input coordinates covered by output position i along one spatial axis of extent d: the padded
+   positions i*s .. i*s+k-1 that fall inside the un-padded range [p, p+d) *)
+Definition pool_window (d k s p i : nat) : list nat :=
+  map (fun r => r - p) (filter (fun r => (p <=? r) && (r <? p + d)) (seq (i * s) k)).
+
+(* floor mode, explicit pads (top, left, bottom, right), no dilation; padding never wins the max *)
+Definition maxpool2d (kh kw sh sw pt pl pb pr : nat) (x : tensor) : option tensor :=
+  match shape x with
+  | [n; c; h; w] =>
+      if (1 <=? kh) && (1 <=? kw) && (1 <=? sh) && (1 <=? sw)
+         && (kh <=? h + pt + pb) && (kw <=? w + pl + pr) then
+        let oh := (h + pt + pb - kh) / sh + 1 in
+        let ow := (w + pl + pr - kw) / sw + 1 in
+        tabo [n; c; oh; ow] (fun idx =>
+          let b := nth 0 idx 0 in
+          let ch := nth 1 idx 0 in
+          red_fold RMax (flat_map (fun r => map (fun q => get x [b; ch; r; q])
+                                               (pool_window w kw sw pl (nth 3 idx 0)))
+                                  (pool_window h kh sh pt (nth 2 idx 0))))
+      else None
+  | _ => None
+  end.
